@@ -40,6 +40,9 @@ def scenarios(tier):
     out.append(("inbound-handshake", "basic", 0, "answer", ["refused"], [("accept",), ("m", 0, "cer_p0"), ("m", 0, "req")]))
     out.append(("outbound-handshake", "basic", 0, "answer", ["ok"], [("m", 0, "cea_ok"), ("m", 0, "req")]))
     out.append(("outbound-handshake-in-progress", "basic", 0, "answer", ["inprogress"], [("resolve", 0, True), ("m", 0, "cea_ok")]))
+    # the handshakes and a request over SCTP (listen / accept / connectx / sctp_send / close are branches of their own)
+    out.append(("inbound-handshake/sctp", "basic", 0, "answer", ["refused"], [("accept",), ("m", 0, "cer_p0"), ("m", 0, "req")]))
+    out.append(("outbound-handshake/sctp", "basic", 0, "answer", ["ok"], [("m", 0, "cea_ok"), ("m", 0, "req")]))
     # the dialled peer rejects the CER; with the fault kind "eofacc" the peer also hangs up and a new peer connects in the same instant
     out.append(("outbound-handshake-rejected", "basic", 0, "answer", ["ok"], [("m", 0, "cea_3xxx"), ("tick", 1)]))
     out.append(("request-answer-basic", "basic", 0, "answer", ["refused"], [("accept",), ("m", 0, "cer_p0"), ("m", 0, "req"), ("m", 0, "req_missing"), ("m", 0, "req")]))
@@ -161,6 +164,8 @@ def run_scenario(spec, fault=None, cut=None, fine=False):
     Returns (steps at the end of the script, violations)."""
     name, kind, limit, outcome, start_plan, script = spec
     cfg = cfg_for(kind, limit, outcome)
+    if name.endswith("/sctp"):
+        cfg["node"]["transport"] = "sctp"       # the node listens on SCTP, its peers are SCTP peers (fake sctp module)
     ch = None
     sk.install()
     if fine:
@@ -232,7 +237,7 @@ def run_scenario(spec, fault=None, cut=None, fine=False):
                 if lost:
                     vs.append(("request-on-a-surviving-connection-never-answered", f"[{name}] socket {s_.idx}: {lost[:3]}"))
         vs += service_probe(sc, limit, f"{name}")
-        if name in ("outbound-handshake", "outbound-handshake-in-progress"):
+        if name in ("outbound-handshake", "outbound-handshake-in-progress", "outbound-handshake/sctp"):
             vs += outbound_probe(sc, name)
         return steps, vs
     except sk.Livelock as e:
